@@ -285,7 +285,7 @@ func (f *Frame) applyContract(fn *ssa.Function, fc *FuncContract, args []Val, in
 		if f.top {
 			g.callSeq++
 			g.addOblig(&Oblig{Name: f.obName(fmt.Sprintf("call%d.%s.requires", g.callSeq, fn.Name()), c, k), Kind: "call-requires",
-				Goal: implies(f.curReach, goal), Pos: f.pos(in.Pos()), Text: c.Text})
+				Goal: implies(f.curReach, goal), Pos: f.posOf(in), Text: c.Text})
 		}
 		g.assume(implies(f.curReach, goal)) // continue under the precondition
 		k++
@@ -589,4 +589,11 @@ func clauseTexts(fc *FuncContract) string {
 		t = append(t, c.Kind+" "+c.Text)
 	}
 	return strings.Join(t, "; ")
+}
+
+func (f *Frame) posOf(in ssa.Instruction) string {
+	if in == nil {
+		return ""
+	}
+	return f.pos(in.Pos())
 }
